@@ -619,6 +619,21 @@ theorem classify_ratio10 (num : Int) (den : Nat) (hden : 0 < den) (hco : Nat.gcd
   simp [hco, hne0]
 
 
+theorem read1_sharp_A (rbase fuel n : Nat) (r4 : List Char) :
+    read1 rbase (fuel + 1) ('#' :: (natText 10 n ++ 'A' :: '(' :: r4)) =
+      mapOk (fun p => (if n = 1 then Obj.vec (mkProper p.1) else Obj.arr n (mkProper p.1), p.2))
+        (readElems rbase fuel r4 []) := by
+  obtain ⟨c2, ds, hnt, ⟨d, hd10, hc2⟩, hparse, hdrop⟩ := sharp_digits n 'A' (by decide) ('(' :: r4)
+  have hp := digitChar_props10_fin ⟨d, hd10⟩
+  rw [hnt]
+  simp only [List.cons_append]
+  rw [read1, skipWs_cons _ _ (by decide)]
+  subst hc2
+  have hq : digitChar d ≠ '(' := (digitChar_props_fin ⟨d, by omega⟩).2.2.2.2.2.1
+  simp [hp.2.2.2.2.2.1, hp.2.2.2.2.2.2.1, hp.2.2.2.2.2.2.2.1,
+    hp.2.2.2.2.2.2.2.2.1, hp.2.2.2.2.2.2.2.2.2.1, hp.2.2.2.2.2.2.2.2.2.2.1, hp.2.2.2.2.2.2.2.2.2.2.2, hp.2.1, hq,
+    hparse, hdrop]
+
 /-- the reader on a radix prefix followed by a number token -/
 theorem read1_radixPrefix (rbase fuel b : Nat) (hb : 2 ≤ b) (hb36 : b ≤ 36) (r : List Char) :
     read1 rbase (fuel + 1) (radixPrefix b ++ r) = readRadix b r := by
